@@ -86,6 +86,11 @@ func checkC04(ci interface{}, st *Stats) error {
 			}
 		}()
 		root := combinator.Sentence(b.NT[0])
+		if len(in) >= 2 {
+			// the grammar value has a history: it parsed a shorter input (the first half) before
+			ctx0, _, _ := NewCtxAt(in[:len(in)/2], 0)
+			_, _ = parsley.Parse(ctx0, root)
+		}
 		if evaluate {
 			val, err = parsley.Evaluate(ctx, root)
 		} else {
